@@ -225,6 +225,11 @@ class C03Hook:
                         if d['parent'] is not None and d['parent'] not in snap['descriptors']]
             if dangling:
                 ctx.fail('committed-transaction-applied-partly', f'left behind: {dangling[:4]}', case)
+            # ... and what the application deleted through calls the API accepted is gone (unless the same script created it again)
+            recreated = {c[2] for c in script['calls'] if c[0] in ('mk', 'addState', 'writeNew') and len(c) > 2}
+            kept = [h for h in info.get('asked_removed_ctx', []) if h in snap['context_states'] and h not in recreated]
+            if kept:
+                ctx.fail('committed-transaction-applied-partly', f'context states deleted by the committed transaction are still in the MDIB: {kept}', case)
         for sig, detail in info.get('isolation_failures', []):
             ctx.fail(sig, detail, case)
         self.retained_probe.check(ctx, case)
